@@ -10,6 +10,7 @@ EXPLANATION = (
     "and every shape of a request packet (with or without MQTT 5 properties) enters its arm; "
     "(R-C06-flush) every registration is followed by force_ack = true or reschedule(id, IncomingAck), force_ack leads to reschedule(id, FreshData), and consume() flushes the AckLog before forwarding; AckLog::readv has no other caller; "
     "(R-C06-qos2) a QoS 2 publish is never appended in the iteration that records it; `recorded` is pushed only by pubrec and popped only by pubcomp; the PubRel arm appends what pubcomp returned. "
+    "(R-C06-suback) the SUBACK return code mirrors the filter's QoS and is pushed only after prepare_filter; (R-C06-batch) the router-wide spare batch buffer is emptied before it is stored back, so one connection's leftover requests are never answered to another (shared with R-C14-cache). "
     "NOT decided: ordering of replies across batches and schedules; 'eventually'.")
 ASSUMPTIONS = ["rustc MIR construction is correct", "the link writes every Notification::DeviceAck it drains (C20 / link code not covered here)"]
 TECHNIQUE = "static analysis: handler-table extraction from the packet match (MIR switch arms), min/max call counts per arm with loop detection, provenance of packet ids, must-pass rules"
@@ -119,6 +120,57 @@ def run(ctx):
     ctx.guarded("R-C06-table", table_and_once, ctx, prog, body)
     ctx.guarded("R-C06-flush", flush, ctx, prog, body)
     ctx.guarded("R-C06-qos2", qos2, ctx, prog, body)
+    ctx.guarded("R-C06-suback", suback_codes, ctx, prog, body)
+    ctx.guarded("R-C06-batch", batch_buffer, ctx, prog)
+
+
+def batch_buffer(ctx, prog):
+    """requests are answered to the connection that sent them: the router-wide spare batch buffer is emptied
+    before it is handed to the next connection (shared with R-C14-cache)"""
+    from . import c14
+    from .common import Relabel
+    view = Relabel(ctx, "R-C06-batch", lambda fn, inst: True)
+    c14.recycled_buffer(view, prog)
+    ctx.floor("R-C06-batch", "verdicts about the recycled batch buffer", view.kept, 1)
+
+
+def suback_codes(ctx, prog, body):
+    """the SUBACK return code of a filter is the granted QoS of that filter (AtMostOnce -> QoS0, ...), and it is
+    reported only after the subscription was registered (prepare_filter)"""
+    from .c04 import arm_aggregate
+    rule = "R-C06-suback"
+    want = {"AtMostOnce": "QoS0", "AtLeastOnce": "QoS1", "ExactlyOnce": "QoS2"}
+    tables = 0
+    for sw in discr_switches(body, r"protocol::QoS$"):
+        pl = sw[4] or {}
+        fs = [p_["f"] for p_ in (pl.get("p") or []) if isinstance(p_, dict) and "f" in p_]
+        if fs[-1:] != ["qos"]:
+            continue
+        got = {}
+        for v in want:
+            tgt = variant_target(sw, v)
+            rv = arm_aggregate(body, tgt, lambda r: r.get("adt", "").endswith("SubscribeReasonCode")) if tgt is not None else None
+            got[v] = rv["var"] if rv else None
+        if not any(got.values()):
+            continue
+        tables += 1
+        if got == want:
+            ctx.ok(rule, body.id, "filter.qos -> SubscribeReasonCode: %s" % got, site=body.loc(body.blocks[sw[0]]["t"].get("sp")))
+        else:
+            ctx.violation(rule, body.id, "granted QoS table", "the SUBACK return code does not mirror the filter's QoS: %s (expected %s)" % (got, want), site=body.loc(body.blocks[sw[0]]["t"].get("sp")))
+    ctx.floor(rule, "QoS -> return code tables in the Subscribe arm", tables, 1)
+    pushes = []
+    for bb, t in body.calls():
+        if body.is_cleanup(bb) or not callee_path(t).endswith("Vec::<T, A>::push"):
+            continue
+        if "SubscribeReasonCode" in body.local_ty(op_local(t["args"][1]) if op_local(t["args"][1]) is not None else 0):
+            pushes.append(bb)
+    pf = [bb for bb, t in body.calls() if callee_path(t).endswith("Router::prepare_filter") and not body.is_cleanup(bb)]
+    ctx.floor(rule, "return_codes.push sites", len(pushes), 1)
+    if pf and pushes and all(any(dominates(body, p_, x) for p_ in pf) for x in pushes):
+        ctx.ok(rule, body.id, "a return code is reported only after prepare_filter registered the subscription")
+    else:
+        ctx.violation(rule, body.id, "return code without registration", "a SUBACK return code is pushed on a path that did not call prepare_filter: the client is told it is subscribed but nothing is registered", site=body.fn_loc())
 
 
 def table_and_once(ctx, prog, body):
